@@ -189,6 +189,19 @@ def r4_pairing(ctx):
                 if e[0] == "switch" and e[2][0] == "bin" and e[2][1] == "Eq" and 59 in (const_int(e[2][2]), const_int(e[2][3])):
                     semis += 1
         ctx.ob("R4", "unescape_with:unterminated", unterminated >= 1 and semis >= 1, "a '&' not followed by ';' as the next hit is UnterminatedEntity (error exits %d, ';' tests %d)" % (unterminated, semis), config=cfg)
+        # every path that resolves an entity / character reference has seen `;` as the hit right after the `&`
+        nres = 0
+        bad = 0
+        for p in paths:
+            res = [c for c in calls(p) if name_is(c[2], "parse_number") or (isinstance(c[2], tuple)) or name_is(c[2], "call_mut", "call_once", "call")]
+            if not res:
+                continue
+            nres += 1
+            semi = [e for e in p if e[0] == "switch" and e[2][0] == "bin" and e[2][1] == "Eq" and 59 in (const_int(e[2][2]), const_int(e[2][3]))]
+            nxt = decision_on(p, lambda t: t[0] == "discr" and call_is(t[1], "next") and not has_subterm(t[1], lambda s: call_is(s, "find")))
+            if not semi or semi[-1][3] == 0 or nxt != 1:
+                bad += 1
+        ctx.ob("R4", "unescape_with:resolve-only-terminated", nres >= 2 and bad == 0, "an entity is resolved only on paths where the next hit after '&' is a ';' (%d resolving paths, %d without the test)" % (nres, bad), config=cfg)
         # after a resolved entity copying resumes right after the ';' (last_end = end + 1), and the text before the '&' is copied
         okl = False
         for p in paths:
@@ -260,6 +273,10 @@ def r5_charref(ctx):
                 std_called_on_sign |= called
             if called:
                 std += 1
+                sc = [c for c in calls(p) if name_is(c[2], "from_str_radix") and "num" in c[2]][0]
+                a0 = strip_wrappers(sc[3][0])
+                ctx.ob("R5", "from_str_radix:checked-is-parsed", a0[0] == "arg" and a0[2] == "src",
+                       "the string handed to the std parser (which accepts a leading '+') must be the very string whose first byte was tested for a sign; it is %s" % sym.show(sc[3][0], 3), config=cfg)
                 ok = r[0] == "call" and name_is(r[2], "map_err") and any(a[0] == "fn" and a[1].endswith("InvalidNumber") or (a[0] == "c" and "InvalidNumber" in str(a[2])) for a in r[3])
                 ctx.ob("R5", "from_str_radix:std", ok or has_subterm(r, lambda s: call_is(s, "from_str_radix")), "digits are parsed by u32::from_str_radix and its error mapped to InvalidNumber", config=cfg)
         ctx.ob("R5", "from_str_radix:signs", signs == {43, 45} and not std_called_on_sign, "a leading '+' or '-' is UnexpectedSign before the std parser is consulted (signs %s)" % sorted(signs), config=cfg)
